@@ -167,9 +167,7 @@ type docModel struct {
 	id      string
 	vals    map[string]Val // registers: last written value (K=null for null)
 	sumI    int64
-	sumF    float64
 	hasPN   bool
-	hasPF   bool
 	deleted bool
 }
 
@@ -419,10 +417,6 @@ func (r *runner) apply(di int, d *docModel, set []FieldVal, op string, writer in
 	for _, fv := range set {
 		enc := d.spec.encrypted(fv.F)
 		if op == "update" && enc {
-			_, had := d.vals[fv.F]
-			if isCounter(fv.F) {
-				had = fv.F == "pn" && d.hasPN || fv.F == "pf" && d.hasPF
-			}
 			switch {
 			case !d.spec.createdWith(fv.F):
 				r.stats.lateFirstWrites++
@@ -435,15 +429,11 @@ func (r *runner) apply(di int, d *docModel, set []FieldVal, op string, writer in
 				}
 				r.stats.updatesOfEncrypted++
 			}
-			_ = had
 		}
 		switch fv.F {
 		case "pn":
 			d.sumI += fv.V.I
 			d.hasPN = true
-		case "pf":
-			d.sumF += math.Float64frombits(fv.V.U)
-			d.hasPF = true
 		default:
 			d.vals[fv.F] = fv.V
 		}
@@ -694,6 +684,7 @@ func (r *runner) checkShared(k int, when string) *hx.Failure {
 	kvs := snapshot(n)
 	// 1. secrets
 	for _, s := range r.secrets {
+		anyHit := false
 		for _, nd := range s.val.needles() {
 			hits := search(kvs, blocksPrefix, nd, false)
 			if s.enc {
@@ -703,15 +694,44 @@ func (r *runner) checkShared(k int, when string) *hx.Failure {
 				}
 				continue
 			}
-			// control: the search does find what is not encrypted
-			if len(hits) > 0 {
-				if !s.found {
-					s.found = true
-					r.stats.controlsFound++
-				}
-			} else if k == s.writer {
-				hx.Harnessf("control failed: the value written to the unencrypted field %s of d%d (%s) is not found under /db/blocks of its writer n%d - the byte search would prove nothing\n%s", s.field, s.doc, showSet([]FieldVal{{F: s.field, V: s.val}}), k, r.history())
+			anyHit = anyHit || len(hits) > 0
+		}
+		if s.enc {
+			continue
+		}
+		// control: the search does find what is not encrypted (for kinds with several candidate
+		// encodings - blob, JSON leaves, array elements - one pattern found is enough)
+		if anyHit {
+			if !s.found {
+				s.found = true
+				r.stats.controlsFound++
 			}
+		} else if k == s.writer {
+			hx.Harnessf("control failed: the value written to the unencrypted field %s of d%d (%s) is not found under /db/blocks of its writer n%d - the byte search would prove nothing\n%s", s.field, s.doc, showSet([]FieldVal{{F: s.field, V: s.val}}), k, r.history())
+		}
+	}
+	// 1b. structure: every commit of an encrypted field links to its key block - the link is what
+	// tells a receiver that the delta is ciphertext (and what a value too short to be searched
+	// for, or a null, cannot hide behind)
+	for _, kv := range kvs {
+		if !under(kv, blocksPrefix) {
+			continue
+		}
+		blk, err := coreblock.GetFromBytes(kv.V)
+		if err != nil || blk.Delta.IsComposite() || blk.Delta.IsCollection() {
+			continue
+		}
+		for di, d := range r.docs {
+			field := blk.Delta.GetFieldName()
+			if d.id != string(blk.Delta.GetDocID()) || !d.spec.encrypted(field) || blk.Encryption != nil {
+				continue
+			}
+			desc := fmt.Sprintf("n%d (%s): the commit %q of encrypted field %s of d%d (mode %s, height %d) carries no link to a key block: its delta is stored and served in clear",
+				k, when, kv.K, field, di, d.spec.Mode, blk.Delta.GetPriority())
+			if sig := r.explainsLateFirstWrite(&secret{doc: di, field: field, op: "update"}, blk); sig != "" {
+				return r.failf(sig, "%s", desc)
+			}
+			return r.failf("C11/encrypted-field-commit-without-key-link/"+scope(d.spec, field), "%s", desc)
 		}
 	}
 	// 2. key material stays under /db/enc
@@ -807,7 +827,7 @@ func (r *runner) explainsLateFirstWrite(s *secret, blk *coreblock.Block) string 
 
 // ---- reads ----------------------------------------------------------------------------
 
-const readQuery = `query { Users(showDeleted: true) { _docID _deleted s s2 tag i f bl j a pn pf } }`
+const readQuery = `query { Users(showDeleted: true) { _docID _deleted s tag i f bl j a pn } }`
 
 func (r *runner) rows(k int) (map[string]map[string]any, *hx.Failure) {
 	res := r.cl.Nodes[k].Exec(readQuery)
@@ -831,7 +851,7 @@ func sameValue(field string, want Val, got any) bool {
 		return got == nil
 	case "str", "blob":
 		s, ok := got.(string)
-		return ok && strings.EqualFold(s, want.S) && (want.K == "blob" || s == want.S)
+		return ok && (s == want.S || want.K == "blob" && strings.EqualFold(s, want.S))
 	case "int", "cint":
 		nn, ok := got.(json.Number)
 		return ok && nn.String() == strconv.FormatInt(want.I, 10)
@@ -879,11 +899,6 @@ func (r *runner) readback(k int, when string) *hx.Failure {
 				want = Val{K: "null"}
 				if d.hasPN {
 					want = Val{K: "cint", I: d.sumI}
-				}
-			case f == "pf":
-				want = Val{K: "null"}
-				if d.hasPF {
-					want = Val{K: "cflt", U: math.Float64bits(d.sumF)}
 				}
 			default:
 				v, ok := d.vals[f]
